@@ -626,6 +626,37 @@ def gen_c10() -> Tuple[str, Dict[str, str]]:
             if a != b and b in ancestors(a):
                 raise Broken(f"translator C10: _ast.{a} inherits from _ast.{b}: dispatch order would matter")
 
+    # ---- string literals: format_str_value of the three formatters, Formatter.escape_str_value ----
+    shapes = set()
+    for L, (rel, cname) in fm.items():
+        v = _const_return(ftrees[L][1], "format_str_value")
+        shapes.add(ast.unparse(v))
+    verbatim = "'\"{0}\"'.format(value)"
+    escaped = "'\"{0}\"'.format(self.escape_str_value(value))"
+    if shapes == {verbatim}:
+        codes: List[int] = []
+    elif shapes == {escaped}:
+        fn = _method(base_cls, "escape_str_value")
+        tables = [st for st in _body(fn) if isinstance(st, ast.Assign) and ast.unparse(st.targets[0]) == "escapes"
+                  and isinstance(st.value, ast.Dict)]
+        if len(tables) != 1:
+            raise Broken("translator C10: Formatter.escape_str_value: expected one dict literal `escapes`")
+        codes = []
+        for k, val in zip(tables[0].value.keys, tables[0].value.values):
+            if not (isinstance(k, ast.Constant) and isinstance(k.value, str) and len(k.value) == 1
+                    and isinstance(val, ast.Constant) and isinstance(val.value, str) and val.value.startswith("\\")
+                    and len(val.value) == 2 and val.value[1] not in '"\n\r'):
+                if not (isinstance(k, ast.Constant) and k.value in ("\\", '"') and isinstance(val, ast.Constant)
+                        and val.value == "\\" + k.value):
+                    raise Broken("translator C10: Formatter.escape_str_value: unsupported entry of `escapes`",
+                                 ast.unparse(k) + ": " + ast.unparse(val))
+            codes.append(ord(k.value))
+        # the loop must apply the table to every character: pinned by its digest (table masked)
+        skel["c10:formatter.escape_str_value"] = skeleton_digest(fn, [tables[0].value])
+    else:
+        raise Broken("translator C10: the three format_str_value do not share one known shape", repr(sorted(shapes)))
+    out.append("Definition str_escaped_chars : list nat := [" + "; ".join(f"{c}%nat" for c in codes) + "].")
+
     # ---- option validator ----
     opt_tree = _parse("compiler/bitproto/options.py")
     found = None
